@@ -130,6 +130,7 @@ def mon_conn(ops, impl):
     budget_open = True
     alive = False
     role, reset_max = "client", "-"
+    last_st, last_op_was_input = "", True
     for i, (o, a) in enumerate(zip(ops, impl)):
         w = o.split(" ")
         if w[0] == "cn_new":
@@ -149,8 +150,19 @@ def mon_conn(ops, impl):
                     reset_max = kv[10:]
         if not w[0].startswith("cn_") or not alive:
             continue
+        if a.strip() == "panic":
+            out.append((i, "mon_cn panic"))
+            alive = False
+            continue
         r = _f(a, "r=")
         st = _f(a, "st=")
+        if w[0] == "cn_poll" and r == "pending":
+            # C08: did the connection task wake itself, and did the poll do anything?
+            selfw = "c" in _f(a, "wk=").split(",")
+            progress = _f(a, "tx=") != "-" or st != last_st or last_op_was_input
+            out.append((i, f"mon_cn polled {int(selfw)} {int(progress)}"))
+        last_op_was_input = w[0] != "cn_poll"
+        last_st = st
         if st not in ("-", "gone", ""):
             out.append((i, f"mon_st {role} {reset_max} {st}"))
         if w[0] == "cn_peer":
